@@ -355,14 +355,39 @@ class World:
         writers.gzip = _real_gzip
 
 
-def run_cli(argv, plan=None, stdout=None, stderr=None):
+class StdProxy:
+    """Installed once per run as sys.stdout / sys.stderr when several simulated clients share the
+    process: routes every write to the stream of the client whose thread is writing, so that two
+    clients printing "at once" collide in segno (if at all), never in the harness."""
+
+    encoding = 'utf-8'
+
+    def __init__(self, current):
+        self.current = current     # callable -> stream of the calling client
+
+    def write(self, s):
+        return self.current().write(s)
+
+    def writelines(self, lines):
+        self.current().writelines(lines)
+
+    def flush(self):
+        self.current().flush()
+
+    def isatty(self):
+        return False
+
+
+def run_cli(argv, plan=None, stdout=None, stderr=None, swap=True):
     """SimProc: runs segno.cli.main(argv) as a process would: returns dict(status, stdout, stderr,
-    traceback (bool), exc (repr or None))."""
+    traceback (bool), exc (repr or None)). With swap=False sys.stdout/sys.stderr are StdProxy objects
+    already routing to `stdout`/`stderr`."""
     from segno import cli
     out = stdout or SimTextStream(plan, 'stdout')
     err = stderr or SimTextStream(plan, 'stderr')
     so, se = sys.stdout, sys.stderr
-    sys.stdout, sys.stderr = out, err
+    if swap:
+        sys.stdout, sys.stderr = out, err
     tb = False
     exc = None
     try:
@@ -389,5 +414,6 @@ def run_cli(argv, plan=None, stdout=None, stderr=None):
             except Exception:
                 pass
     finally:
-        sys.stdout, sys.stderr = so, se
+        if swap:
+            sys.stdout, sys.stderr = so, se
     return {'status': status, 'stdout': out.getvalue(), 'stderr': err.getvalue(), 'traceback': tb, 'exc': exc}
